@@ -77,14 +77,15 @@ def run(ctx):
             continue
         for i in b.live_blocks():
             for s in b.stmts(i):
-                if s["k"] == "assign" and s["rv"]["k"] == "agg" and (s["rv"].get("fields") and "multiplicity" in s["rv"]["fields"]):
+                mf_ = [f_ for f_ in (s["rv"].get("fields") or []) if f_ in mult_fields(F)] if s["k"] == "assign" and s["rv"]["k"] == "agg" and (s["rv"].get("adt") or "").startswith(CR) else []
+                if mf_:
                     n_agg += 1
-                    op = s["rv"]["ops"][s["rv"]["fields"].index("multiplicity")]
+                    op = s["rv"]["ops"][s["rv"]["fields"].index(mf_[0])]
                     o = Prov(b).operand(op)
                     ctx.check(any(x[0] == "arg" and b.locals[x[1]]["ty"] == "core::option::Option<u64>" for x in o) and not any(x[0] == "const" for x in o),
                               "R03.1", fnkey(b) + "#writer-multiplicity-from-parameter", loc(b, i), "per-call writer multiplicity origins: %s" % sorted(map(str, o)))
                 fe = [e for e in s.get("lhs", {}).get("p", []) if e[0] == "f"] if s["k"] == "assign" else []
-                if fe and fe[-1][2] == "multiplicity" and fe[-1][3].startswith(CR):
+                if fe and fe[-1][2] in mult_fields(F) and fe[-1][3].startswith(CR):
                     ctx.bad("R03.1", fnkey(b) + "#multiplicity-reassigned", loc(b, i), "the per-call multiplicity is overwritten after construction")
     ctx.floor("R03.1", "per-call writer constructions", n_agg, 1)
 
@@ -367,6 +368,15 @@ def run(ctx):
     return EXPL
 
 
+def mult_fields(F):
+    """names of the Option<u64> fields of crate types (role: the per-call sampling multiplicity), whatever they are called"""
+    c_ = getattr(F, "_mult_fields", None)
+    if c_ is None:
+        c_ = {f["name"] for a in F.adts.values() if a["crate"] == CR for v in a["variants"] for f in v["fields"] if f["ty"] == "core::option::Option<u64>"}
+        F._mult_fields = c_
+    return c_
+
+
 def thread_param(F, b, p, depth):
     """parameter p of b is, at every call site in the crate, bound to the caller's own multiplicity parameter / writer field"""
     callers = [cs for cs in F.callers_of(b.path, crates=[CR]) if c02.in_scope(cs.body)]
@@ -382,7 +392,7 @@ def thread_param(F, b, p, depth):
         if not args or len(o) != len(args):
             return False, "%s passes a multiplicity of origin %s to %s" % (cb.path, sorted(map(str, o)), b.name)
         for x in args:
-            if x[2] and x[2][-1] == "multiplicity":
+            if x[2] and x[2][-1] in mult_fields(F):
                 continue        # field of the per-call writer
             if not x[2] and cb.locals[x[1]]["ty"] == "core::option::Option<u64>" and depth > 0:
                 ok, how = thread_param(F, cb, x[1], depth - 1)
